@@ -38,6 +38,16 @@ struct SplineIO {
       Sp c = sp->crop(0.2 * sp->t_max(), 0.9 * sp->t_max(), false);
       *sp = c;
     }
+    if (index % 4 == 2) {
+      // several segments that each start inside a cropped-away part (pieces cropped separately,
+      // then concatenated), followed by an uncropped one
+      Sp a = seg(make_elem<G>(in, 0)), b = seg(smooth::Identity<G>()), c = seg(smooth::Identity<G>());
+      Sp r = a.crop(0.3 * a.t_max(), 0.9 * a.t_max());
+      r += b.crop(0.4 * b.t_max(), b.t_max());
+      r += c.crop(0.1 * c.t_max(), 0.8 * c.t_max());
+      r += seg(smooth::Identity<G>());
+      *sp = r;
+    }
     return sp;
   }
   static void digest(const Sp& sp, Out& out) {
